@@ -94,7 +94,8 @@ class Compartments(list[T]):
 
         The order of axis 1 is (parent, current node).
         """
-        return np.array([s.get_ndata(key) for s in self])
+        data = [s.get_ndata(key) for s in self]
+        return np.array(data).reshape(len(data), 2)
 
 
 # Aliases
